@@ -495,7 +495,7 @@ func (t *tr) block(stmts []ast.Stmt, out *blockOut, top bool) {
 		case *ast.RangeStmt:
 			out.items = append(out.items, t.rangeItem(x))
 		case *ast.ReturnStmt:
-			if len(x.Results) == 1 && (exprStr(x.Results[0]) == "i" || exprStr(x.Results[0]) == "i-n" || exprStr(x.Results[0]) == "?") {
+			if len(x.Results) == 1 && (exprStr(x.Results[0]) == "i" || exprStr(x.Results[0]) == "i-n") {
 				continue
 			}
 			if len(x.Results) == 1 {
